@@ -44,14 +44,19 @@ def r1_copy_reaches_evaluate(ctx):
     fn = ctx.fn(PROC, "ProcessTasks.filter")
     evs = evaluate_calls(fn)
     ctx.floor("C03.R1", ".evaluate( call sites in ProcessTasks.filter", len(evs), 1)
-    # flags must be assigned exactly once for the flow-insensitive specialisation to be sound
-    flag_defs = {f: assigned_value(fn, f) for f in FLAGS}
-    usable = [f for f in FLAGS if len(flag_defs[f]) == 1]
+    # flags = locals bound once to `<id> is not None` (task-kind flags); they must be assigned exactly once for the
+    # flow-insensitive specialisation to be sound
+    from ..util import bound_names, name_bound
+    cand = bound_names(fn, lambda v: isinstance(v, ast.Compare) and len(v.ops) == 1 and isinstance(v.ops[0], (ast.IsNot, ast.Is))
+                       and isinstance(v.comparators[0], ast.Constant) and v.comparators[0].value is None)
+    flag_defs = {f: assigned_value(fn, f) for f in cand}
+    usable = [f for f in cand if len(flag_defs[f]) == 1]
+    TASK = name_bound(fn, lambda v: isinstance(v, ast.Call) and call_tail(v) == "pop", "task")
     configs = list(itertools.product([True, False], repeat=len(usable)))
     n_reach = 0
     for cfgvals in configs:
         env = dict(zip(usable, cfgvals))
-        env["task.copy"] = True
+        env[f"{TASK}.copy"] = True
         fe = FlagEval(env)
         cfg = CFG(fn, test_eval=fe.test)
         ctx.configurations += 1
@@ -67,7 +72,7 @@ def r1_copy_reaches_evaluate(ctx):
                 rd = reaching_defs(cfg, params=[a.arg for a in fn.args.args])
             larg = arg_or_kw(ev, 1, "learner")
             for nid in nodes:
-                ok, detail = _learner_is_copy(cfg, rd, nid, larg, fn)
+                ok, detail = _learner_is_copy(cfg, rd, nid, larg, fn, TASK)
                 ctx.ob("C03.R1", PROC, "ProcessTasks.filter", ev,
                        "learner passed to evaluate() is a deep copy whenever task.copy is set", ok,
                        detail={"config": {**{k: v for k, v in env.items()}}, **detail},
@@ -79,9 +84,9 @@ def _is_deepcopy(e):
     return isinstance(e, ast.Call) and call_name(e) in ("deepcopy", "copy.deepcopy") and len(e.args) == 1
 
 
-def _task_learner_expr(e, cfg, rd, nid, depth=0):
+def _task_learner_expr(e, cfg, rd, nid, depth=0, task="task"):
     """is expression `e` (evaluated at node nid) the task's learner (task.lrn), possibly via a local?"""
-    if isinstance(e, ast.Attribute) and isinstance(e.value, ast.Name) and e.value.id == "task" and e.attr == "lrn":
+    if isinstance(e, ast.Attribute) and isinstance(e.value, ast.Name) and e.value.id == task and e.attr == "lrn":
         return True
     if isinstance(e, ast.Name) and depth < 3:
         defs = rd.get(nid, {}).get(e.id, frozenset())
@@ -92,7 +97,7 @@ def _task_learner_expr(e, cfg, rd, nid, depth=0):
                 return False
             a = cfg.nodes[d].ast
             v = _value_bound_to(a, e.id)
-            if v is None or not _task_learner_expr(v, cfg, rd, d, depth + 1):
+            if v is None or not _task_learner_expr(v, cfg, rd, d, depth + 1, task):
                 return False
         return True
     return False
@@ -112,11 +117,11 @@ def _value_bound_to(stmt, name):
     return None
 
 
-def _learner_is_copy(cfg, rd, nid, larg, fn):
+def _learner_is_copy(cfg, rd, nid, larg, fn, task="task"):
     if larg is None:
         return False, {"why": "no learner argument"}
     if _is_deepcopy(larg):
-        return _task_learner_expr(larg.args[0], cfg, rd, nid), {"arg": unparse(larg)}
+        return _task_learner_expr(larg.args[0], cfg, rd, nid, 0, task), {"arg": unparse(larg)}
     if not isinstance(larg, ast.Name):
         return False, {"why": "learner argument is neither a local nor deepcopy(...)", "arg": unparse(larg)}
     defs = rd.get(nid, {}).get(larg.id, frozenset())
@@ -127,7 +132,7 @@ def _learner_is_copy(cfg, rd, nid, larg, fn):
             continue
         a = cfg.nodes[d].ast
         v = _value_bound_to(a, larg.id)
-        if v is not None and _is_deepcopy(v) and _task_learner_expr(v.args[0], cfg, rd, d):
+        if v is not None and _is_deepcopy(v) and _task_learner_expr(v.args[0], cfg, rd, d, 0, task):
             continue
         bad.append(f"line {cfg.nodes[d].line}: {unparse(a) if a is not None else '?'}")
     return (not bad and bool(defs)), {"non_copy_definitions_reaching_evaluate": bad}
@@ -207,6 +212,30 @@ def r4_containment(ctx):
                     esc = [x for s in h.body for x in walk_shallow(s) if isinstance(x, (ast.Raise, ast.Break, ast.Return))]
                     ctx.ob("C03.R4", PROC, "ProcessTasks.filter", h, "handler neither re-raises nor leaves the task loop", not esc,
                            stmt="try@task-loop:handler-body")
+                    # the handler may not change anything that decides whether / how OTHER tasks run
+                    guard_names = set()
+                    for t in walk_shallow(loop):
+                        if isinstance(t, ast.If):
+                            guard_names |= {x.id for x in ast.walk(t.test) if isinstance(x, ast.Name)}
+                    guard_names |= {x.id for x in ast.walk(loop.test) if isinstance(x, ast.Name)}
+                    writes = []
+                    for st2 in h.body:
+                        for x in walk_shallow(st2):
+                            if isinstance(x, ast.Name) and isinstance(x.ctx, (ast.Store, ast.Del)) and x.id != (h.name or ""):
+                                writes.append(x.id)
+                            if isinstance(x, ast.Call) and isinstance(x.func, ast.Attribute) and isinstance(x.func.value, ast.Name) \
+                                    and x.func.attr in ("add", "append", "extend", "update", "pop", "remove", "clear", "discard", "insert", "setdefault"):
+                                writes.append(x.func.value.id)
+                            if isinstance(x, (ast.Assign, ast.AugAssign)):
+                                for tg in (x.targets if isinstance(x, ast.Assign) else [x.target]):
+                                    b = tg
+                                    while isinstance(b, (ast.Subscript, ast.Attribute)):
+                                        b = b.value
+                                    if isinstance(b, ast.Name) and not isinstance(tg, ast.Name):
+                                        writes.append(b.id)
+                    leak = sorted(set(writes) & guard_names)
+                    ctx.ob("C03.R4", PROC, "ProcessTasks.filter", h, "a failure changes no state that decides whether or how other tasks are evaluated", not leak,
+                           stmt="try@task-loop:handler-writes", detail=None if not leak else {"written_and_tested_by_task_guards": leak})
                     logs = any(has_call(s, "logger.log") for s in h.body)
                     ctx.ob("C03.R4", PROC, "ProcessTasks.filter", h, "handler reports the failure to the logger", logs,
                            stmt="try@task-loop:handler-logs")
@@ -222,10 +251,11 @@ def r4_containment(ctx):
                          for c, b in control_ancestors(ev, loop))
             ctx.ob("C03.R4", PROC, "ProcessTasks.filter", ev, "evaluate() runs inside the per-task try", inside, stmt="evaluate-in-try")
     # writes to the shared chunk list
+    CHUNK = unparse(loops[0].test) if loops and isinstance(loops[0].test, ast.Name) else "chunk"
     muts = []
     for n in walk_shallow(fn):
         if isinstance(n, ast.Call) and isinstance(n.func, ast.Attribute) and isinstance(n.func.value, ast.Name) \
-                and n.func.value.id == "chunk" and n.func.attr in ("pop", "append", "extend", "insert", "remove", "clear", "sort", "reverse"):
+                and n.func.value.id in ("chunk", CHUNK) and n.func.attr in ("pop", "append", "extend", "insert", "remove", "clear", "sort", "reverse"):
             muts.append(n)
     ctx.floor("C03.R4", "mutations of the chunk list", len(muts), 1)
     for m in muts:
@@ -233,7 +263,7 @@ def r4_containment(ctx):
                m.func.attr == "pop" and not m.args)
     # the loop ends only when the chunk is exhausted
     for loop in loops:
-        ctx.ob("C03.R4", PROC, "ProcessTasks.filter", loop, "the loop runs until the task list is empty", unparse(loop.test) == "chunk",
+        ctx.ob("C03.R4", PROC, "ProcessTasks.filter", loop, "the loop runs until the task list is empty", unparse(loop.test) == CHUNK and any(m.func.attr == "pop" for m in muts),
                stmt="while-test")
 
 
@@ -286,18 +316,20 @@ def r5_shared_state(ctx):
                 ctx.ob("C03.R5", rel, qual, node, f"no cross-evaluation channel ({why})", ok)
     ctx.note(f"C03.R5 examined {len(seen)} modules; {n} class/module-level writes found")
     fn = ctx.fn(SEQ, "SequentialCB._results")
-    info_vals = assigned_value(fn, "info")
+    from ..util import name_bound
+    INFO = name_bound(fn, lambda v: unparse(v) == "CobaContext.learning_info", "info")
+    info_vals = assigned_value(fn, INFO)
     is_info = bool(info_vals) and all(unparse(v) == "CobaContext.learning_info" for v in info_vals)
     ctx.ob("C03.R5", SEQ, "SequentialCB._results", enclosing_stmt(info_vals[0]) if info_vals else fn,
            "the shared learning_info dict is bound once", is_info, stmt="info := CobaContext.learning_info")
     loops = [s for s in fn.body if isinstance(s, ast.For)]
-    clears_before = [s for s in fn.body if isinstance(s, ast.Expr) and unparse(s.value) == "info.clear()"
+    clears_before = [s for s in fn.body if isinstance(s, ast.Expr) and unparse(s.value) == f"{INFO}.clear()"
                      and loops and s.lineno < loops[-1].lineno]
     ctx.ob("C03.R5", SEQ, "SequentialCB._results", clears_before[0] if clears_before else fn,
            "learning_info is cleared before the interaction loop (nothing leaks in from an earlier evaluation)",
            bool(clears_before), stmt="info.clear() before loop")
     for loop in loops[-1:]:
-        ups = [x for x in walk_shallow(loop) if isinstance(x, ast.Call) and unparse(x) == "out.update(info)"]
+        ups = [x for x in walk_shallow(loop) if isinstance(x, ast.Call) and call_tail(x) == "update" and x.args and unparse(x.args[0]) == INFO]
         for u in ups:
             st = enclosing_stmt(u)
             from ..model import parent
@@ -307,7 +339,7 @@ def r5_shared_state(ctx):
                 if st in (getattr(p, field, None) or []):
                     body = getattr(p, field)
             after = body[body.index(st) + 1:] if body else []
-            ok = any(isinstance(s, ast.Expr) and unparse(s.value) == "info.clear()" for s in after)
+            ok = any(isinstance(s, ast.Expr) and unparse(s.value) == f"{INFO}.clear()" for s in after)
             ctx.ob("C03.R5", SEQ, "SequentialCB._results", u, "learning_info is cleared after it was copied into a row", ok)
 
 
@@ -316,8 +348,11 @@ def r6_pickled(ctx, rule="C03.R6"):
     ctx.rule(rule, "Multiprocessor.filter: the loader line pickles items before the in-queue sink and the worker line "
                    "unpickles after the in-queue source (workers operate on their own copies)")
     fn = ctx.fn(PMP, "Multiprocessor.filter")
-    load = assigned_value(fn, "load_line")
-    work = assigned_value(fn, "filter_line")
+    from ..util import bound_names, name_bound
+    lines = [v for nm in bound_names(fn, lambda v: isinstance(v, ast.Call) and call_name(v) == "SourceSink") for v in assigned_value(fn, nm)]
+    load = [v for v in lines if v.args and isinstance(v.args[0], ast.Call) and call_name(v.args[0]) == "IterableSource"]
+    work = [v for v in lines if v not in load]
+    INQ = name_bound(fn, lambda v: isinstance(v, ast.Call) and call_tail(v) == "Queue" and v.keywords, "in_queue")
     ctx.floor(rule, "load_line/filter_line pipelines", len(load) + len(work), 2)
 
     def kinds(call):
@@ -333,14 +368,14 @@ def r6_pickled(ctx, rule="C03.R6"):
     for v in load:
         ks = kinds(v) if isinstance(v, ast.Call) else []
         idx_p = [i for i, (_, k) in enumerate(ks) if k.startswith("Pickler(")]
-        idx_s = [i for i, (_, k) in enumerate(ks) if k.startswith("QueueSink(in_queue")]
+        idx_s = [i for i, (_, k) in enumerate(ks) if k.startswith(f"QueueSink({INQ}")]
         ok = bool(idx_p) and bool(idx_s) and idx_p[0] < idx_s[0] and idx_s[0] == len(ks) - 1
         ctx.ob(rule, PMP, "Multiprocessor.filter", v, "items are pickled before they enter the in-queue", ok,
                detail={"pipeline": [k for _, k in ks]}, stmt="load_line")
     for v in work:
         ks = kinds(v) if isinstance(v, ast.Call) else []
         idx_u = [i for i, (_, k) in enumerate(ks) if k.startswith("Unpickler(")]
-        idx_q = [i for i, (_, k) in enumerate(ks) if k.startswith("QueueSource(in_queue")]
+        idx_q = [i for i, (_, k) in enumerate(ks) if k.startswith(f"QueueSource({INQ}")]
         idx_f = [i for i, (_, k) in enumerate(ks) if "self._filter" in k]
         ok = bool(idx_u) and bool(idx_q) and bool(idx_f) and idx_q[0] == 0 and idx_q[0] < idx_u[0] < idx_f[0]
         ctx.ob(rule, PMP, "Multiprocessor.filter", v, "workers unpickle their own copy before applying the filter", ok,
